@@ -555,9 +555,42 @@ Theorem nearest_declaration : forall n ls l,
   = match lookup_decl n (rev (l_decls l)) with Some p => Some p | None => lookup_decl n (collect ls) end.
 Proof. intros. rewrite collect_app. apply lookup_fold_upsert. Qed.
 
-Theorem nearest_config : forall ls l,
-  nearest_cfg (ls ++ [l]) = match l_cfg l with Some g => g | None => nearest_cfg ls end.
+Theorem nearest_config : forall ls l, nearest_cfg (ls ++ [l]) = step_cfg (nearest_cfg ls) l.
 Proof. intros. unfold nearest_cfg. now rewrite fold_left_app. Qed.
+
+Lemma last_cfgdecl_app : forall ls l,
+  last_cfgdecl (ls ++ [l]) = match l_cfg l with Some cd => Some cd | None => last_cfgdecl ls end.
+Proof. intros. unfold last_cfgdecl. now rewrite fold_left_app. Qed.
+
+(* get_config agrees with Python's attribute lookup unless a plain Config derives from another Config *)
+Theorem builder_cfg_nearest : forall ls, no_plain_inherit ls = true -> builder_cfg ls = nearest_cfg ls.
+Proof.
+  intro ls. induction ls as [|l r IH] using rev_ind; intro H; [reflexivity|].
+  unfold no_plain_inherit in H. rewrite forallb_app in H. apply andb_true_iff in H as [Hr Hl].
+  cbn [forallb] in Hl. rewrite andb_true_r in Hl.
+  unfold builder_cfg in *. rewrite last_cfgdecl_app, nearest_config. unfold step_cfg.
+  destruct (l_cfg l) as [cd|].
+  - destruct (cd_plain cd); [|reflexivity]. rewrite andb_true_r in Hl. apply negb_true_iff in Hl. now rewrite Hl.
+  - specialize (IH Hr). destruct (last_cfgdecl r) as [cd|] eqn:E.
+    + exact IH.
+    + (* no Config anywhere below: everything is the default *)
+      clear - E. induction r as [|x r IHr] using rev_ind; [reflexivity|].
+      rewrite last_cfgdecl_app in E. rewrite nearest_config. unfold step_cfg.
+      destruct (l_cfg x); [discriminate|]. now apply IHr.
+Qed.
+
+Definition w_plain : list level :=
+  [mkL [(mkF "x" None None true, true)] (Some (mkCD false true (Some [("x", "ax")]) None (Some true)));
+   mkL [] (Some (mkCD true true None (Some true) None))].
+
+(* a plain Config deriving from a plain Config: the parent's aliases and forbid_extra_keys are lost *)
+Lemma plain_inherit_refuted :
+  no_plain_inherit w_plain = false
+  /\ nearest_cfg w_plain = mkCfg [("x", "ax")] true true
+  /\ builder_cfg w_plain = mkCfg [] true false
+  /\ impl_from_dict (builder_class_of w_plain None) [(KeyS "ax", 1%Z); (KeyS "q", 2%Z)] = Ok (OInst [("x", None)])
+  /\ keymodel (class_of w_plain None) [(KeyS "ax", 1%Z); (KeyS "q", 2%Z)] = OExtra [KeyS "q"].
+Proof. repeat split; vm_compute; reflexivity. Qed.
 
 (* a re-declaration keeps the position of the first declaration; every name occurs once *)
 Lemma upsert_names : forall p fs,
@@ -602,7 +635,16 @@ Proof.
   apply H. constructor.
 Qed.
 
-(* the main theorem for a class given by its hierarchy *)
+(* the main theorem for a class given by its hierarchy: the generated code, which works with the Config
+   CodeBuilder.get_config returns, against KEYMODEL for that Config ... *)
 Theorem impl_eq_keymodel_hier : forall ls discr d,
-  impl_from_dict (class_of ls discr) d = Ok (keymodel (class_of ls discr) d).
+  impl_from_dict (builder_class_of ls discr) d = Ok (keymodel (builder_class_of ls discr) d).
 Proof. intros. apply impl_eq_keymodel. Qed.
+
+(* ... and against KEYMODEL for the Config Python's attribute lookup gives *)
+Theorem impl_eq_keymodel_hier_py : forall ls discr d, no_plain_inherit ls = true ->
+  impl_from_dict (builder_class_of ls discr) d = Ok (keymodel (class_of ls discr) d).
+Proof.
+  intros ls discr d H. rewrite impl_eq_keymodel_hier. unfold builder_class_of, class_of.
+  now rewrite (builder_cfg_nearest ls H).
+Qed.
